@@ -29,7 +29,29 @@ FIX_REPLACEMENTS = [
      [(r"    def encode\(self, value, asn1Spec=None, encodeFun=None, \*\*options\):\n",
        "\n        # concerns this item only, never its components\n        ifNotEmpty = options.pop('ifNotEmpty', False)\n")]),
     ('pyasn1/codec/streaming.py', 'wrapper_none', None),
+    ('pyasn1/codec/ber/encoder.py', 'seg_spec', None),
 ]
+
+
+def seg_spec(txt):
+    """Redo a31a924 on a patched pyasn1/codec/ber/encoder.py."""
+    ok = True
+    i = txt.find('class OctetStringEncoder')
+    j = txt.find('\nclass ', i + 10)
+    span = txt[i:j]
+    key = '        elif not isOctetsType(value):\n'
+    if span.count(key) == 2:
+        k = span.rindex(key)
+        span = span[:k] + '        else:\n' + span[k + len(key):]
+        txt = txt[:i] + span + txt[j:]
+    else:
+        ok = False
+    m = list(re.finditer(r'encodeFun\((alignedValue\[[^\]]+\]), asn1Spec, \*\*options\)', txt))
+    if len(m) == 1:
+        txt = txt[:m[0].start()] + 'encodeFun(%s, None, **options)' % m[0].group(1) + txt[m[0].end():]
+    else:
+        ok = False
+    return txt, ok
 
 
 def wrapper_none(txt):
@@ -104,6 +126,8 @@ def rebase(patch, old):
                         done = True
                     continue
                 ok = True
+                if all(ins.strip().splitlines()[-1] in txt for rx, ins in inserts) and not any(re.findall(rx, txt) for rx, new_ in subs):
+                    continue            # this repair is already in the old tree
                 for rx, new_ in subs:
                     if len(re.findall(rx, txt)) != 1:
                         ok = False
@@ -128,6 +152,8 @@ def rebase(patch, old):
                     continue
                 if isinstance(subs, str):
                     btxt = globals()[subs](btxt)[0]
+                    continue
+                if all(ins.strip().splitlines()[-1] in btxt for rx, ins in inserts) and not any(re.findall(rx, btxt) for rx, new_ in subs):
                     continue
                 for rx, new_ in subs:
                     btxt = re.sub(rx, new_, btxt)
